@@ -97,6 +97,7 @@ def stCodec (st : St) : Sqfs.FragDedup.Codec :=
 def stH (st : St) : Bytes → UInt32 := fun x => (st.stHash.lookup x).getD 0
 
 def showStErr : Sqfs.C08Stream.Err → String
+  | .unsupported => "err unsupported"
   | .badEvent => "err bad-event"
   | .frag e => "err frag " ++ (showFdErr e).drop 4
   | .writer e => "err writer " ++ (showErr e).drop 4
